@@ -136,6 +136,24 @@ def run(ctx: Ctx) -> None:
     seeds = [0, 1, 2] if quick else [0, 1, 2, 3, 4, 5, 6, 7]
     cases = lc.build_cases(ctx, 60 if quick else 600, [4, 6, 8, 10], with_corpus=True)
     cases = [c for c in cases if len(c["jobs"]) <= 60]
+    # job sets with counted multisets (the same event type 1, 2 or 3 times in parallel, a different number in every
+    # job): which multiset is seen first depends on the presentation.  Outside F's distinct names: only the ingestion
+    # clause is judged on them.
+    for _ in range(10 if quick else 60):
+        r = ctx.rng
+        b = r.choice(["B", "Bx", "K"])
+        counts = r.sample([1, 2, 3], k=r.choice([2, 3]))
+        jobs = []
+        for n in counts:
+            nodes = [{"id": 0, "typ": "A", "prev": []}]
+            nodes += [{"id": 1 + i, "typ": b, "prev": [0]} for i in range(n)]
+            nodes.append({"id": n + 1, "typ": "C", "prev": list(range(1, n + 1))})
+            jobs.append(nodes)
+        if r.random() < 0.5:
+            jobs.append([{"id": 0, "typ": "A", "prev": []}, {"id": 1, "typ": "D", "prev": [0]},
+                         {"id": 2, "typ": "C", "prev": [1]}])
+        cases.append({"kind": "counted", "blk": ["seq", [["ev", f"counted {b} x{counts}"]]], "jobs": jobs, "classes": []})
+        ctx.tick("def_counted")
     ctx.cov["rule"] = (
         "job sets of fragment-F definitions (small exhaustive family, seeded random up to 10 events) and the corpus; "
         "presentations {base, jobs permuted, events permuted inside every job, event/job ids renamed and timestamps "
@@ -190,6 +208,8 @@ def run(ctx: Ctx) -> None:
     # ---- part B: diagrams ------------------------------------------------------------------------------
     reqs, meta = [], []
     for i, c in enumerate(cases):
+        if c["kind"] == "counted":
+            continue
         for name, pv in c["pres"].items():
             for hs in seeds:
                 if name != "base" and hs != seeds[(list(c["pres"]).index(name)) % len(seeds)] and quick:
